@@ -68,6 +68,7 @@ RULE_FUNCS = [
     (T.r_dashmap_guards, ['R18.a']),
     (T.r_neutral_components, ['R01.8']),
     (CM.r_key_equality, ['R11.d', 'R18.e', 'R10.5', 'R06.5']),
+    (CM.r_clone_fidelity, ['R11.h', 'R18.e', 'R02.7']),
 ]
 
 
